@@ -179,13 +179,19 @@ func init() {
 	c03plans := "restart1,restart3,crash1,crash2"
 	var c03thorough []map[string]string
 	for i, l := range []string{"staking", "staking", "staking", "staking", "staking", "didreg", "authz", "faults", "life:mixed", "life:renewheavy", "selection"} {
-		a := map[string]string{"leader": l, "plans": c03plans, "ops": "300", "fpar": "4"}
+		a := map[string]string{"leader": l, "plans": c03plans, "ops": "160", "fpar": "4"}
 		if l == "staking" && i%2 == 0 {
 			a["stores"] = "1"
 		}
 		if l == "selection" {
 			a["direct"] = "0"
-			a["orders"] = "30"
+			a["orders"] = "20"
+			a["plans"] = "restart3,crash2"
+		}
+		if l == "faults" {
+			// thousands of blocks (penalty ticks): sparse restarts
+			a["ops"] = "120"
+			a["plans"] = "restart211,crash2"
 		}
 		if l[:4] == "life" {
 			a["plans"] = "restart97,restart211,crash3"
